@@ -4,4 +4,11 @@ go 1.21
 
 require github.com/free5gc/nas v0.0.0
 
+require (
+	github.com/aead/cmac v0.0.0-20160719120800-7af84192f0b1 // indirect
+	github.com/sirupsen/logrus v1.8.1 // indirect
+	github.com/tim-ywliu/nested-logrus-formatter v1.3.2 // indirect
+	golang.org/x/sys v0.18.0 // indirect
+)
+
 replace github.com/free5gc/nas => /repo
